@@ -1544,3 +1544,18 @@ Proof.
   split; [vm_compute; reflexivity|]. split; [vm_compute; reflexivity|]. split; [|vm_compute; reflexivity].
   intros H. apply in_regionb_spec in H. vm_compute in H. discriminate.
 Qed.
+
+(** every vertex of the list is on the boundary, hence in both regions *)
+Lemma vertex_on_boundary : forall P v, In v P -> on_boundary P v.
+Proof.
+  intros P v Hin. apply in_split in Hin. destruct Hin as [l1 [l2 ->]].
+  assert (H : on_boundary ((v :: l2) ++ l1) v).
+  { cbn [app]. exists (v, hd v (l2 ++ l1)). split.
+    - rewrite edges_cons. left. reflexivity.
+    - cbn [fst snd]. apply on_seg_start. }
+  destruct H as [e [He Ho]]. exists e. split; [|exact Ho].
+  apply (Permutation_in _ (edges_rotate l1 (v :: l2))). exact He.
+Qed.
+
+Theorem boundary_inside : forall P q b, poly_contains P q = Ret b -> on_boundary P q -> b = true.
+Proof. intros P q b H Hb. apply (poly_contains_nz P q b H). left. exact Hb. Qed.
